@@ -24,6 +24,24 @@ with tempfile.TemporaryDirectory() as d:
         if not any(ch.tag in ("failure", "error", "skipped") for ch in tc):
             passed.add(f"{tc.get('classname')}::{tc.get('name')}")
 missing = [t for t in base["stable_pass"] if t not in passed]
+# hypothesis-driven tests of the pinned suite are randomly flaky on the unchanged tree too (test_runner.py draws observable names):
+# a test that did not pass is given two more runs on its own, each with a fresh example database, before it counts as missing
+for attempt in (1, 2):
+    if not missing:
+        break
+    for t in list(missing):
+        cls, name = t.split("::")
+        parts = cls.split(".")
+        k = max(i for i, q in enumerate(parts) if q.startswith("test_"))
+        node = "/".join(parts[: k + 1]) + ".py" + "".join("::" + q for q in parts[k + 1 :]) + "::" + name
+        with tempfile.TemporaryDirectory() as d:
+            env["HYPOTHESIS_STORAGE_DIRECTORY"] = os.path.join(d, "hypothesis")
+            r = subprocess.run(["/venv/bin/python", "-m", "pytest", "-q", "-p", "no:cacheprovider", "--timeout=900", "--no-cov", node],
+                               cwd=repo, env=env, stdout=subprocess.PIPE, stderr=subprocess.STDOUT, text=True)
+        if r.returncode == 0:
+            print(f"  flaky: {t} passed on retry {attempt}")
+            missing.remove(t)
+            passed.add(t)
 print(f"baseline stable_pass={len(base['stable_pass'])} passed_now={len(passed)} missing={len(missing)}")
 for m in missing:
     print("  MISSING", m)
